@@ -25,9 +25,24 @@ RESTORE = {"RXTUNE": "RXTUNE 935200", "TXTUNE": "TXTUNE 890200", "SETPOWER": "SE
            "FAKE_TRXC_DELAY": "FAKE_TRXC_DELAY 0", "RFMUTE": "RFMUTE 0", "SETFORMAT": "SETFORMAT 0", "MEASURE": "MEASURE 935200"}
 
 
+NONASCII = ["\u00c9CHO", "PO\u0174ERON", "\u0416", "FOO\u00a0BAR", "\u4e2d\u6587", "na\u00efve", "\U0001f4e1"]
+
+
 def hostile_ctrl(rng):
     """(kind, bytes) - datagrams that are not well-formed documented commands."""
     r = rng.random()
+    if r < 0.08:
+        # valid UTF-8 that is not ASCII: an undocumented verb, or a non-numeric argument - decodable,
+        # so it gets as far as the reply (which echoes it)
+        w = rng.choice(NONASCII)
+        if rng.random() < 0.5:
+            txt = "CMD %s" % w + rng.choice(["", " 1", " 1 2"])
+        else:
+            verb, argc = rng.choice(NUMERIC_VERBS)
+            args = [str(rng.randint(0, 100)) for _ in range(argc)]
+            args[rng.randrange(argc)] = rng.choice([w, "5" + w, w + "5"])
+            txt = "CMD %s %s" % (verb, " ".join(args))
+        return "utf8-non-ascii", txt.encode("utf-8") + rng.choice([b"\0", b""])
     if r < 0.18:
         verb, argc = rng.choice(NUMERIC_VERBS)
         args = [str(rng.randint(0, 100)) for _ in range(argc)]
